@@ -1059,6 +1059,9 @@ fn tools() -> Vec<Tool> {
         Tool::new(Kind::Ecl, Game::Th06), Tool::new(Kind::Ecl, Game::Th07), Tool::new(Kind::Ecl, Game::Th08),
         Tool::new(Kind::Msg, Game::Th06), Tool::new(Kind::Msg, Game::Th08), Tool::new(Kind::Msg, Game::Th12),
         Tool::new(Kind::Std, Game::Th08), Tool::new(Kind::Std, Game::Th12),
+        // further games of each tool (other header / instruction layouts and built-in tables)
+        Tool::new(Kind::Ecl, Game::Th09), Tool::new(Kind::Ecl, Game::Th095), Tool::new(Kind::Anm, Game::Th07), Tool::new(Kind::Anm, Game::Th17),
+        Tool::new(Kind::Msg, Game::Th09), Tool::new(Kind::Msg, Game::Th17), Tool::new(Kind::Std, Game::Th06), Tool::new(Kind::Std, Game::Th17),
     ]
 }
 
